@@ -1,7 +1,8 @@
 //! C10: `nsverif layout [--from N] <in> <out>` — property oracle "layout is insignificant" on the
 //! real pipeline (Lexer -> Parser -> Resolver -> Runtime), plus the data for the model tie.
 //!
-//! Input: one program per line, `P <id> <seed> <k> <hex of the UTF-8 source>`.
+//! Input: one program per line, `P <id> <seed> <k> <hex of the UTF-8 source>` (`Q ...` = the same
+//! without the redundant-parentheses variants).
 //! For every program
 //!   1. the REAL lexer gives the token spans; programs with lexer diagnostics are skipped (a token
 //!      with a lexical error, e.g. an unterminated string, has no layout-independent text);
@@ -731,10 +732,11 @@ struct Piece {
     words: Vec<Vec<u8>>, // the words of the text (1 for everything but multi-word keywords)
     class: u8,          // b'w' word, b'm' multi, b'n' number without '.', b'f' number with '.', b'p' punct/string
     guard: &'static [u8], // first bytes that must not follow (identifiers `if` / `small`)
+    orig_gaps: Vec<Vec<u8>>, // multi-word keywords: the whitespace runs between the words in the source
 }
 
 fn piece(t: &Tok, text: &[u8]) -> Option<Piece> {
-    let one = |code: String, class: u8| Piece { code, words: vec![text.to_vec()], class, guard: b"" };
+    let one = |code: String, class: u8| Piece { code, words: vec![text.to_vec()], class, guard: b"", orig_gaps: Vec::new() };
     Some(match t.kind {
         "String" => {
             if text.len() < 2 || text[0] != text[text.len() - 1] {
@@ -776,7 +778,16 @@ fn piece(t: &Tok, text: &[u8]) -> Option<Piece> {
         "SmallPass" | "IfToSay" | "IfNotSo" => {
             let words: Vec<Vec<u8>> =
                 text.split(|b| b.is_ascii_whitespace()).filter(|w| !w.is_empty()).map(<[u8]>::to_vec).collect();
-            Piece { code: format!("M:{}", t.kind), words, class: b'm', guard: b"" }
+            let mut gaps: Vec<Vec<u8>> = Vec::new();
+            let mut cur: Vec<u8> = Vec::new();
+            for b in text {
+                if b.is_ascii_whitespace() {
+                    cur.push(*b);
+                } else if !cur.is_empty() {
+                    gaps.push(std::mem::take(&mut cur));
+                }
+            }
+            Piece { code: format!("M:{}", t.kind), words, class: b'm', guard: b"", orig_gaps: gaps }
         }
         "LParen" | "RParen" | "LBracket" | "RBracket" | "Comma" | "Dot" => one(format!("P:{}", t.kind), b'p'),
         k => one(format!("K:{k}"), b'w'),
@@ -812,6 +823,30 @@ fn rand_comment(r: &mut Rng, i: usize) -> SepElem {
     SepElem::Comment(body, if r.chance(70) { b'\n' } else { b'\r' })
 }
 
+/// Whitespace between the words of a multi-word keyword: any kind (one byte repeated, CRLF
+/// repeated, mixed) and a heavy-tailed length, far beyond any plausible fixed look-ahead window.
+fn inner_gap(r: &mut Rng) -> Vec<u8> {
+    let c = r.below(100);
+    let n = if c < 40 {
+        1 + r.below(4)
+    } else if c < 75 {
+        5 + r.below(60)
+    } else if c < 93 {
+        65 + r.below(236)
+    } else {
+        1000 + r.below(4001)
+    };
+    match r.below(8) {
+        0 => vec![b' '; n],
+        1 => vec![b'\t'; n],
+        2 => vec![b'\n'; n],
+        3 => vec![b'\r'; n],
+        4 => vec![0x0c; n],
+        5 => (0..n).map(|i| if i % 2 == 0 { b'\r' } else { b'\n' }).collect(),
+        _ => (0..n).map(|_| rand_ws(r)).collect(),
+    }
+}
+
 fn ws_run(r: &mut Rng, min: usize, max: usize) -> Vec<u8> {
     let n = min + r.below(max - min + 1);
     (0..n).map(|_| rand_ws(r)).collect()
@@ -841,7 +876,7 @@ fn parse_gap(g: &[u8]) -> (Vec<SepElem>, Option<Vec<u8>>) {
 }
 
 const KINDS: [&str; 12] =
-    ["line", "tall", "random", "comments", "crlf", "respace", "dense", "mixed", "cr", "formfeed", "mixed", "random"];
+    ["orig", "line", "mixed", "comments", "crlf", "respace", "dense", "random", "tall", "cr", "formfeed", "mixed"];
 
 fn make_layout(kind: &str, src: &[u8], toks: &[Tok], pieces: &[Piece], r: &mut Rng) -> Abs {
     let n = toks.len();
@@ -854,7 +889,7 @@ fn make_layout(kind: &str, src: &[u8], toks: &[Tok], pieces: &[Piece], r: &mut R
         parse_gap(&src[from..to])
     };
     match kind {
-        "crlf" | "respace" | "cr" => {
+        "orig" | "crlf" | "respace" | "cr" => {
             let conv = |sp: Vec<SepElem>, kind: &str| -> Vec<SepElem> {
                 let mut out = Vec::new();
                 for e in sp {
@@ -954,7 +989,7 @@ fn make_layout(kind: &str, src: &[u8], toks: &[Tok], pieces: &[Piece], r: &mut R
     // the identifiers `if` / `small`: the first non-blank byte behind them must not start a
     // continuation word (only a comment can keep them apart)
     for i in 0..n {
-        if pieces[i].guard.is_empty() {
+        if pieces[i].guard.is_empty() || kind == "orig" {
             continue;
         }
         let has_comment = a.after[i].iter().any(|e| matches!(e, SepElem::Comment(..)));
@@ -979,15 +1014,15 @@ fn make_layout(kind: &str, src: &[u8], toks: &[Tok], pieces: &[Piece], r: &mut R
         if p.class == b'm' {
             for w in 1..p.words.len() {
                 let g = match kind {
+                    "orig" => p.orig_gaps.get(w - 1).cloned().unwrap_or_default(),
                     "line" => vec![b' '],
                     "dense" => vec![b'\t'],
                     "tall" => vec![b'\n'],
                     "formfeed" => vec![0x0c],
                     "crlf" => vec![b'\r', b'\n'],
                     "cr" => vec![b'\r'],
-                    _ => ws_run(r, 1, 4),
+                    _ => inner_gap(r),
                 };
-                let _ = w;
                 gaps.push(g);
             }
         }
@@ -1076,7 +1111,7 @@ fn parens_variant(src: &str, toks: &[Tok], cands: &[(usize, usize)], pick: &[usi
 
 // ------------------------------------------------------------------ driver
 
-fn one_case(w: &mut impl std::io::Write, seed: u64, k: usize, src: &str) {
+fn one_case(w: &mut impl std::io::Write, seed: u64, k: usize, src: &str, parens: bool) {
     let mut r = Rng(seed | 1);
     for _ in 0..4 {
         r.next();
@@ -1117,6 +1152,16 @@ fn one_case(w: &mut impl std::io::Write, seed: u64, k: usize, src: &str) {
         };
         writeln!(w, "L {j} {kind} {} {}", hex(text.as_bytes()), abs.encode(&pieces)).unwrap();
         w.flush().unwrap();
+        if kind == "orig" {
+            // the identity re-layout: the source itself, abstracted (model tie on the original text)
+            writeln!(w, "T {j} {}", base.tokens).unwrap();
+            if text == src {
+                writeln!(w, "O {j} same").unwrap();
+            } else {
+                writeln!(w, "O {j} DIFF orig-render {} {}", hex(src.as_bytes()), hex(text.as_bytes())).unwrap();
+            }
+            continue;
+        }
         let o = observe(&text, false);
         writeln!(w, "T {j} {}", o.tokens).unwrap();
         match first_diff(&base, &o, true) {
@@ -1126,6 +1171,9 @@ fn one_case(w: &mut impl std::io::Write, seed: u64, k: usize, src: &str) {
         w.flush().unwrap();
     }
     // redundant parentheses (programs the parser accepts without diagnostics)
+    if !parens {
+        return;
+    }
     if base.gate != "parse" && !base.cands_ok {
         writeln!(w, "X 0 0 - unmapped").unwrap();
     }
@@ -1214,7 +1262,7 @@ pub fn run(args: &[String]) -> ExitCode {
                     continue;
                 }
                 let p: Vec<&str> = line.split_whitespace().collect();
-                if p.len() != 5 || p[0] != "P" {
+                if p.len() != 5 || (p[0] != "P" && p[0] != "Q") {
                     continue;
                 }
                 writeln!(w, "CASE {idx} {}", p[1]).unwrap();
@@ -1223,7 +1271,7 @@ pub fn run(args: &[String]) -> ExitCode {
                 let seed: u64 = p[2].parse().unwrap_or(1);
                 let k: usize = p[3].parse().unwrap_or(6);
                 match unhex(p[4]) {
-                    Some(src) => one_case(&mut w, seed, k, &src),
+                    Some(src) => one_case(&mut w, seed, k, &src, p[0] == "P"),
                     None => writeln!(w, "SKIP not-utf8").unwrap(),
                 }
                 CASE_STARTED_MS.store(0, std::sync::atomic::Ordering::Relaxed);
